@@ -136,19 +136,38 @@ func (c *umCase) check(w *run.W, in []byte) (umResult, bool) {
 	// reduce, then describe the reduced case
 	small := in
 	sres := res
+	if !valid && c.mode != 0 {
+		// Decode reads one value: bytes after it do not take part.  If the first value alone
+		// shows the same disagreement, the case is reduced from there.
+		var first stdjson.RawMessage
+		if stdjson.NewDecoder(bytes.NewReader(in)).Decode(&first) == nil && c.run(first).class == res.class {
+			small, valid = first, true
+		}
+	}
 	if valid {
-		small = reduceInput(in, func(cand []byte) bool { return c.run(cand).class == res.class })
+		small = reduceInput(small, func(cand []byte) bool { return c.run(cand).class == res.class })
 		sres = c.run(small)
 		if sres.class != res.class { // cannot happen: reduceInput only returns accepted candidates
 			small, sres = in, res
 		}
 	}
 	sig := map[string]string{"api": c.sigAPI()}
-	feat, lit := chainLocate(c.tt[0], small)
+	sp, lit := chainSpot(c.tt[0], small)
+	feat := sp.feat
 	sub := "unmarshal-error-differs"
 	if sres.class == "value-differs" {
 		sub = "unmarshal-value-differs"
+	}
+	if !valid {
+		// a reduced case exists only for valid inputs; for the others classify the prefix decoded
+		sp = nil
+	}
+	if cause := unmarshalCause(sp, sres.class, sres.d); cause != causeUnclassified {
+		// one small signature per root cause
+		sig = map[string]string{"cause": cause, "outcome": outcomeWord(sres.class)}
+	} else if sres.class == "value-differs" {
 		d := sres.d
+		sig["cause"] = causeUnclassified
 		sig["type"], sig["what"] = stripStars(d.typ), d.what
 		if o := canonOpts(d.opts, false); o != "" {
 			sig["opts"] = o
@@ -160,6 +179,7 @@ func (c *umCase) check(w *run.W, in []byte) (umResult, bool) {
 		sig["in"] = lit
 	} else {
 		side, o := whichFails(sres.o1, sres.o2)
+		sig["cause"] = causeUnclassified
 		sig["fails"] = side
 		errAttrs(sig, o)
 		sig["type"] = stripStars(feat.typ)
@@ -180,6 +200,17 @@ func (c *umCase) check(w *run.W, in []byte) (umResult, bool) {
 	}
 	violate(w, sub, sig, "%s\n on the reduced input:\n classic: %v\n  target=%s\n v1:      %v\n  target=%s", msg, sres.o1, short(sres.p0.Elem().Interface()), sres.o2, short(sres.p1.Elem().Interface()))
 	return res, false
+}
+
+// outcomeWord names the kind of disagreement: which side failed, or that both succeeded with different values.
+func outcomeWord(class string) string {
+	switch class {
+	case "error-differs:std":
+		return "classic-fails"
+	case "error-differs:v1":
+		return "v1-fails"
+	}
+	return "values-differ"
 }
 
 func stripStars(s string) string {
@@ -428,44 +459,64 @@ func reduceInput(in []byte, keep func([]byte) bool) []byte {
 // chainLocate follows the reduced input down while containers have exactly one child
 // and reports the Go type feature reached plus the class of the JSON node there.
 func chainLocate(t reflect.Type, in []byte) (feature, string) {
+	sp, lit := chainSpot(t, in)
+	return sp.feat, lit
+}
+
+// chainSpot is chainLocate with the structural facts the cause rules need.
+func chainSpot(t reflect.Type, in []byte) (*spot, string) {
+	sp := &spot{feat: feature{typeName(t), "", "root"}, t: t, input: in}
 	n := ref.Parse(in, permissive)
 	if n == nil {
-		return feature{typeName(t), "", "root"}, "unparsed"
+		return sp, "unparsed"
 	}
-	f := feature{"", "", "root"}
 	opts := ""
 	for depth := 0; depth < 30; depth++ {
 		stars := ""
+		sp.ptrs = 0
 		for t.Kind() == reflect.Pointer {
 			stars = "*"
 			t = t.Elem()
+			sp.ptrs++
 		}
-		f.typ, f.opts = stars+typeName(t), opts
+		sp.feat.typ, sp.feat.opts, sp.t, sp.node = stars+typeName(t), opts, t, n
 		var next *ref.Node
 		if !hasMethods(t) && t != timeT {
+			if n.Kind == ref.Object && t.Kind() == reflect.Struct {
+				// every member left by the reduction is needed for the disagreement; one whose
+				// name the two packages resolve to different fields explains it
+				for _, m := range n.Members {
+					if foldOrderConflict(t, m.Name) {
+						sp.fold = true
+						return sp, nodeClass(n)
+					}
+				}
+			}
 			switch {
 			case n.Kind == ref.Object && len(n.Members) == 1 && t.Kind() == reflect.Struct:
 				if sf, o, ok := findField(t, n.Members[0].Name); ok {
-					t, opts, f.via, next = sf.Type, o, "field", n.Members[0].Value
+					t, opts, sp.feat.via, next = sf.Type, o, "field", n.Members[0].Value
 				}
 			case n.Kind == ref.Object && len(n.Members) == 1 && t.Kind() == reflect.Map:
 				// the key or the value may be the cause; the value is followed only if it is not trivial
 				v := n.Members[0].Value
 				if v.Kind == ref.Null || v.Kind == ref.Number && v.Raw == "0" {
-					f.typ, f.via = typeName(t.Key()), "mapkey"
-					return f, nodeClass(&ref.Node{Kind: ref.String, S: n.Members[0].Name, Raw: n.Members[0].RawName})
+					sp.feat.typ, sp.feat.via = typeName(t.Key()), "mapkey"
+					sp.t, sp.ptrs = t.Key(), 0
+					sp.node = &ref.Node{Kind: ref.String, S: n.Members[0].Name, Raw: n.Members[0].RawName}
+					return sp, nodeClass(sp.node)
 				}
-				t, opts, f.via, next = t.Elem(), "", "mapval", v
+				t, opts, sp.feat.via, next = t.Elem(), "", "mapval", v
 			case n.Kind == ref.Array && len(n.Elems) == 1 && (t.Kind() == reflect.Slice || t.Kind() == reflect.Array) && t.Elem().Kind() != reflect.Uint8:
-				t, opts, f.via, next = t.Elem(), "", "elem", n.Elems[0]
+				t, opts, sp.feat.via, next = t.Elem(), "", "elem", n.Elems[0]
 			}
 		}
 		if next == nil {
-			return f, nodeClass(n)
+			return sp, nodeClass(n)
 		}
 		n = next
 	}
-	return f, nodeClass(n)
+	return sp, nodeClass(n)
 }
 
 func nodeClass(n *ref.Node) string {
